@@ -36,7 +36,11 @@ def h_cli(c):
     def spy_q(poly, *a, **kw):
         rec = {"what": "qspp", "poly": enc(_coefs_of(poly)), "nargs": len(a), "kw": {k: _plain(v) for k, v in kw.items()}}
         calls.append(rec)
-        res = real_q(poly, *a, **kw)
+        try:
+            res = real_q(poly, *a, **kw)
+        except Exception as e:
+            rec["raised"] = type(e).__name__
+            raise
         rec["result"] = enc(numpy.asarray(res, dtype=float))
         return res
     patched = []
